@@ -437,7 +437,12 @@ def suite_model(ctx, drv, n_programs):
         case = {"kind": "crown-container-model", "prog": prog, "mode": mode, "strict": strict, "label": label,
                 "data": c03.safe_enc(datum)}
         ctx.note_case(case, nontrivial=real_out["r"] != "ok", kind=f"crown-model:{node_kind}:{real_out['r']}")
-        if real_out["r"] == "escape":
+        if real_out["r"] == "escape" and prog["move"] == "kwargs" and real_out["cls"] == "TypeError" and \
+                "multiple values for keyword argument" in str(real_out.get("detail")):
+            # documented (extended-usage.rst, ExtraKwargs): "If an unknown field collides with the original field name,
+            # TypeError will be raised, treated as an unexpected error" - not a violation of C04; counted
+            ctx.dist["crown-model:documented-extra-kwargs-collision"] += 1
+        elif real_out["r"] == "escape":
             ctx.fail(f"escape:{real_out['cls']}:{node_kind}-crown<-modelled",
                      f"generated loader of an explicit crown, {label} [{mode}, strict={strict}]: {real_out['cls']} escaped "
                      f"({real_out.get('detail')})", case)
